@@ -17,12 +17,12 @@ MANIFEST = {
     "technique": "TLA+ specification of the WHATWG URL parser state machine and of the validator (NextUrl.tla); TLC model-checks "
                  "Safe over all token words up to a bound, then enumerates the words and judges every recorded answer of the real "
                  "validate_next_page_url (call/return conformance, B3)",
-    "text": "Exhaustive over all words over 16 tokens (schemes, //, /, \\, @, :, ?, #, ., good host, other host, digit, tab/newline, "
+    "text": "Exhaustive over all words over 17 tokens (schemes, //, /, \\, @, :, ?, #, ., good host, other host, digit, tab/newline, "
             "space/C0 control) up to a stated length and over a 8-token core to a larger length, each concretised several ways "
             "(case, four deployment hosts, look-alike hosts, control characters), plus insertion probes on longer URLs. The browser side "
             "is the WHATWG parser written as a TLA+ state machine; the verdict for every call is computed by TLC.",
     "note": "Trusts: TLC + CommunityModules; the rendering of the WHATWG basic URL parser / host parser in NextUrl.tla restricted to "
-            "the token alphabet (no percent-encoding, IDNA, IPv6 literals, non-ASCII); the token->string table in checks/c29.py; the "
+            "the token alphabet (percent-encoding only as one token for an encoded delimiter; no IDNA, IPv6 literals, non-ASCII); the token->string table in checks/c29.py; the "
             "reading that a URL which navigates to no host (javascript:, unknown scheme, parse failure, fragment only) does not 'land elsewhere'.",
     "design_ref": "DESIGN.md section 5, C29",
 }
@@ -45,6 +45,7 @@ def reps(good_hosts):
         "evil": ["evil.com", f"{good_hosts[0]}.evil.com", f"evil{good_hosts[0]}", dom, f"batch-{dom}", f"internal.{dom}",
                  f"{good_hosts[1]}-x.io"],
         "digit": ["1", "2"],
+        "pct": ["%2F", "%2f", "%23", "%3F", "%40", "%3A", "%5C"],
         "tab": ["\t", "\n", "\r"],
         "sp": [" ", "\x0b", "\x0c", "\x01", "\x1f", "\x00"],
     }
@@ -105,7 +106,7 @@ def run(ctx):
     # ---- (1) TLC: the property holds for the MODEL of the validator, every parser run terminates, sanity of the parser ----
     (wd / "MC.cfg").write_text(tlc.mk_cfg(invariants=["TypeOK", "Terminates", "Safe", "HostNeedsSlashesOrHttp", "StepIsRun"]))
     res = tlc.run(wd, "NextUrl", "MC.cfg", workers=ctx.workers, coverage=True, env=env)
-    ctx.add_tlc(res, f"NextUrl: URL parser runs on all words <= {mc} over 16 tokens and <= {mccore} over the 8-token core; Safe for the modelled validator")
+    ctx.add_tlc(res, f"NextUrl: URL parser runs on all words <= {mc} over 17 tokens and <= {mccore} over the 8-token core; Safe for the modelled validator")
     for v in res.violations:
         if v.name == "Safe":
             # the model of the validator is unsafe: show it; the real function is judged below on the same word
@@ -133,7 +134,8 @@ def run(ctx):
     # insertion probes on longer URLs (beyond the length bound): every token at every position
     bases = [["https", "ss", "good", "s", "evil", "q", "evil"], ["ss", "good", "colon", "digit", "digit", "s"],
              ["https", "ss", "evil", "s", "good"], ["https", "ss", "good", "dot", "evil", "s"], ["sp", "https", "ss", "good", "hash", "at", "evil"],
-             ["https", "ss", "evil", "at", "good", "s"], ["http", "ss", "good", "colon", "digit", "at", "evil", "s"], ["s", "evil", "s", "good"]]
+             ["https", "ss", "evil", "at", "good", "s"], ["http", "ss", "good", "colon", "digit", "at", "evil", "s"], ["s", "evil", "s", "good"],
+             ["https", "ss", "good", "at", "evil", "s"], ["ss", "good", "at", "evil"], ["https", "ss", "good", "dot", "at", "evil", "s"]]
     toks = sorted(R)
     seenw = {tuple(w) for w in words}
     for b in bases:
@@ -202,7 +204,7 @@ def run(ctx):
     ctx.cov.update(traces_validated_against_impl=ncalls, evaluations=ncalls,
                    distinct_nontrivial=sum(1 for c in cases if len(c["w"]) >= 2), exhaustive=True,
                    rule=f"TLC model-checks the parser state machine and Safe(model validator) on all words <= {mc} (16 tokens) / <= {mccore} (core); "
-                        f"B3: all {n_tlc_words} words <= {full} over 16 tokens (15 at length 5: without '?') and <= {core} over the 8-token core, plus {len(words) - n_tlc_words} insertion "
+                        f"B3: all {n_tlc_words} words <= {full} over 17 tokens (15 at length 5: without '?') and <= {core} over the 8-token core, plus {len(words) - n_tlc_words} insertion "
                         f"probes on longer URLs, each concretised {nvar} ways + canonical; every answer of the real validator judged by TLC; "
                         "non-trivial = word of >= 2 tokens")
     ctx.cov["states"] += 2 * ncalls
